@@ -53,6 +53,9 @@ def invert_family(tier):
     ctx = base if tier == "thorough" else base[::7]
     for e in ctx:
         progs += ["not (%s)" % e[4:], "%s and q" % e, "q or %s" % e, "not (%s)" % e]
+    # contexts in which the parentheses around the `not` expression matter
+    for e in (base if tier == "thorough" else base[::5]):
+        progs += ["(%s) + 1" % e, "(%s) == p" % e, "n + (%s)" % e, "(%s) if p else 0" % e, "(%s) < a" % e, "p is (%s)" % e]
     return sorted(set(progs))
 
 
@@ -292,7 +295,7 @@ def check_pair(before_src, after_src, want_kind=None):
         return "untranslatable", str(e), False, None
     base = list(ev.axioms)
     # CPython: identity of small ints coincides with equality; keep ints in the cached range when `is` is used
-    if any(n.startswith("is|") for (n, _s) in ev.vars):
+    if ev.uses_is:
         for (n, s_), var in ev.vars.items():
             if s_ == "i":
                 base.append(z3.And(var >= -5, var <= 256))
